@@ -58,11 +58,12 @@ def _build_fixture(path: Path, full: bool) -> dict:
     handles = {}
     with Workspace.create(path) as ws:
         p = Points.create(ws, vertices=np.arange(12.0).reshape(4, 3), name="P")
-        q = Points.create(ws, vertices=np.arange(12.0).reshape(4, 3) + 1.0, name="Q")
+        # forced name collisions: Q and G are also called "P", c is also called "a" (identity must go by uid)
+        q = Points.create(ws, vertices=np.arange(12.0).reshape(4, 3) + 1.0, name="P")
         a = p.add_data({"a": {"values": np.arange(4.0)}})
         b = p.add_data({"b": {"values": np.arange(4.0) * 2}})
-        c = q.add_data({"c": {"values": np.arange(4.0) * 3}})
-        g = ContainerGroup.create(ws, name="G")
+        c = q.add_data({"a": {"values": np.arange(4.0) * 3}})
+        g = ContainerGroup.create(ws, name="P")
         pg = p.add_data_to_group([a, b], "pg")
         pg.property_group_type = "Multi-element"
         handles.update(P=p.uid, Q=q.uid, a=a.uid, b=b.uid, c=c.uid, G=g.uid, pg=pg.uid)
